@@ -268,7 +268,7 @@ Section RunCF.
   Variable pattern_ok : ver -> ustring -> bool.
   Variable selectors_ok : list (ustring * pval) -> pval -> result bool.
   Variable ids : list ustring.
-  Hypothesis Hclosed : closed_ok vr w ids = true.
+  Hypothesis Hclosed : closed_oki vr w ids = true.
 
   Notation RUN := (run vr ev w pattern_ok selectors_ok).
 
@@ -283,7 +283,7 @@ Section RunCF.
     - cbn [run] in H. discriminate.
     - cbn [run] in H.
       destruct (find_class (wclasses w) kid) as [c |] eqn:Ef; try discriminate.
-      pose proof (ids_class_ok vr w ids Hclosed kid c Hm Ef) as Hok. unfold class_ok in Hok.
+      pose proof (ids_class_oki vr w ids Hclosed kid c Hm Ef) as Hok. unfold class_oki in Hok.
       apply andb_true_iff in Hok. destruct Hok as [Hok Hidslot]. apply andb_true_iff in Hok. destruct Hok as [Hok Hinit].
       apply andb_true_iff in Hok. destruct Hok as [Hnd Hslots]. apply nodupb_NoDup in Hnd.
       destruct (amem (u "_valid_refs") kw || amem (u "allow_custom") kw || amem (u "interoperability") kw || amem (u "self") kw);
@@ -310,13 +310,31 @@ Section RunCF.
                   else Ok obj
                 | _, _, _ => Ok obj
                 end = Ok o).
-      { destruct (cinit c) as [| names | | | | |] eqn:Ei; try discriminate.
+      { unfold ind_ok in Hinit.
+        destruct (cinit c) as [| names | | | | |] eqn:Ei; cbn [init_ok orb] in Hinit; try discriminate.
         - match type of H with match ?g with _ => _ end = _ => destruct g as [obj | |] eqn:Eg; try discriminate end.
           exists kw, obj. repeat split; auto.
         - match type of H with match ?g with _ => _ end = _ => destruct g as [obj | |] eqn:Eg; try discriminate end.
           eexists; exists obj. split; [| split; [exact Eg | exact H]].
           unfold plain_dict in *. apply forallb_forall. intros x Hx. apply filter_In in Hx. destruct Hx as [Hx _].
           rewrite forallb_forall in Hp. apply Hp. exact Hx.
+        - change (match construct_generic vr ev w pattern_ok selectors_ok rc rp ro (S f) c false interop (ind_kw kw) [] vrf with
+                  | Ok obj => match obj, cfamily c, cver c with
+                              | PObject ocid inner dfl hc, FSco, V21 =>
+                                if amem (u "id") kw then Ok obj
+                                else if existsb (fun p => amem p inner) (cidcontrib c) then
+                                  match ctype c with
+                                  | Some t => Ok (PObject ocid (aset (u "id") (PJ (JStr (t ++ u "--" ++ e_uuid5 ev))) inner) dfl hc)
+                                  | None => Unmodelled
+                                  end
+                                else Ok obj
+                              | _, _, _ => Ok obj
+                              end
+                  | Err e => Err e
+                  | Unmodelled => Unmodelled
+                  end = Ok o) in H.
+          match type of H with match ?g with _ => _ end = _ => destruct g as [obj | |] eqn:Eg; try discriminate end.
+          exists (ind_kw kw), obj. split; [apply ind_kw_plain; exact Hp |]. split; [exact Eg | exact H].
         - match type of H with match ?g with _ => _ end = _ => destruct g as [obj | |] eqn:Eg; try discriminate end.
           exists kw, obj. repeat split; auto.
         - match type of H with match ?g with _ => _ end = _ => destruct g as [obj | |] eqn:Eg; try discriminate end.
